@@ -668,3 +668,6 @@ func NewErrorResponse(status *int32, message *string) error {
 func newSegment(sg Segment) restli.ResourcePathSegment {
 	return restli.NewResourcePathSegment(sg.Name, sg.IsCollection)
 }
+
+// QueryEscape is the library's own escaper for values of query parameters.
+func QueryEscape(s string) string { return restlicodec.Ror2QueryEscape(s) }
